@@ -599,3 +599,177 @@ class RlRaggedColumnInt(Family):
         return {"rows": [[1, 1, 2], [2, 3], [3, 3, 3, 4]]}
 
     bounded_cases = RlRaggedRavel.bounded_cases
+
+
+@register
+class RlRaggedRemoveEmpty(Family):
+    """RunLengthRaggedArray.remove_empty_intervals(events, values), row by row what the 1-D helper does: in every row the runs with equal
+    boundaries are dropped together with their values, every other run keeps value, start (value) and end, the first boundary of the row is kept,
+    boundaries and values stay in lock-step (one boundary more than values per row), rows stay rows.
+    Ragged operands are contract-level stand-ins (SpecRagged); the two results are built by the REAL RaggedArray constructor.
+    Inductions: F/T as for subset (row counts = rank differences, new row starts = ranks of the old row starts), for both masks;
+    R (along a row) relates the ranks of the boundary mask and of the value mask; a stretch of empty runs has constant boundaries."""
+    name = "RunLengthRaggedArray.remove_empty_intervals"
+    qualname = "npstructures.runlengtharray:RunLengthRaggedArray.remove_empty_intervals"
+    serves = ["C17"]
+    timeout_ms = 30000
+    assumed = ["RaggedArray operations through their contracts (SpecRagged: column ranges, !=, ones_like, column-range assignment, x[ragged mask], row sums; audited)",
+               "numpy boolean-mask gather (flatnonzero rank / position functions)", "numpy.cumsum = prefix sums (RaggedShape.__init__, executed here)"]
+
+    def extra_functions(self):
+        return ["RaggedArray.__init__", "RaggedShape.__init__"]
+
+    def _setup(self, ctx):
+        from .specragged import SpecRagged
+        n = z3.Int("n")
+        ctx.assume(n >= 0)
+        VL = z3.Function(fresh_name("runs"), z3.IntSort(), z3.IntSort())
+        ctx.assume_forall("runs>=1", lambda r: z3.Implies(z3.And(0 <= r, r < n), VL(r) >= 1))
+        vals = SpecRagged.symbolic(ctx, "W", n, lambda r: VL(r), kind="elem")
+        inds = SpecRagged.symbolic(ctx, "B", n, lambda r: VL(r) + 1, kind="int")
+        st = {"n": n, "VL": VL, "B": inds.fn, "W": vals.fn, "inds": inds, "vals": vals}
+        ctx.ghost["st"] = st
+        return st
+
+    def _lemmas(self, ctx, st):
+        """F/T for both masks; returns the ghost handles"""
+        from .structural import _subset_lemmas
+        n = st["n"]
+        nzs = ctx.ghost["nonzero_facts"]
+        nz1, nz2 = nzs[-2], nzs[-1]                    # values[mask] is gathered first, events[mask2] second
+        reds = ctx.ghost["spec_reductions"]
+        red2, red1 = reds[-2], reds[-1]                # mask2.sum is evaluated first (events result), mask.sum second
+        pss = ctx.ghost["prefix_sums"]
+
+        class G:
+            pass
+        g1, g2 = G(), G()
+        g1.n, g1.S, g1.L = n, st["vals"]._shape.S, st["vals"]._shape.L
+        g2.n, g2.S, g2.L = n, st["inds"]._shape.S, st["inds"]._shape.L
+        # the masks' own geometry objects have the lengths of the values / boundaries: their starts coincide (same_geometry at the gathers)
+        _subset_lemmas(ctx, g2, nz2.mask, nz2, red2["fold"], pss[-2]["ps"] if len(pss) >= 2 else None)
+        _subset_lemmas(ctx, g1, nz1.mask, nz1, red1["fold"], pss[-1]["ps"] if len(pss) >= 1 else None)
+        return nz1, nz2, g1, g2
+
+    def late_lemmas(self, ctx, kind, exc):
+        st = ctx.ghost.get("st")
+        if st is None or not isinstance(exc, ValueError) or len(ctx.ghost.get("nonzero_facts", [])) < 2 or len(ctx.ghost.get("spec_reductions", [])) < 1:
+            return
+        n = st["n"]
+        nzs, reds, pss = ctx.ghost["nonzero_facts"], ctx.ghost["spec_reductions"], ctx.ghost.get("prefix_sums", [])
+        if not pss:
+            return
+        from .structural import _subset_lemmas
+
+        class G:
+            pass
+        # which construction failed?  the first RaggedArray(...) is the boundaries' (mask2), the second the values' (mask)
+        first = len(pss) == 1
+        g = G()
+        sh = st["inds"]._shape if first else st["vals"]._shape
+        g.n, g.S, g.L = n, sh.S, sh.L
+        nz = nzs[-1] if first else nzs[-2]
+        red = reds[0] if first else reds[1]             # mask2.sum(axis=-1) is evaluated first, mask.sum(axis=-1) second
+        _subset_lemmas(ctx, g, nz.mask, nz, red["fold"], pss[-1]["ps"])
+        ctx.prove_then_assume("late.lemma: the per-row counts add up to the number of kept cells", pss[-1]["ps"](n) == nz.cnt, pool=[n, g.S(n)], kind="lemma")
+
+    def run(self, ctx, kind):
+        from npstructures.runlengtharray import RunLengthRaggedArray
+        st = self._setup(ctx)
+        n, VL, B, W = st["n"], st["VL"], st["B"], st["W"]
+        VS, IS = st["vals"]._shape.S, st["inds"]._shape.S
+        ctx.add_index(n, n - 1)
+        e2, v2 = RunLengthRaggedArray.remove_empty_intervals(st["inds"], st["vals"])
+        nz1, nz2, g1, g2 = self._lemmas(ctx, st)
+        rk1, pos1, M1, rk2, pos2, M2 = nz1.rk, nz1.pos, nz1.mask, nz2.rk, nz2.pos, nz2.mask
+        ED, VD = e2.ravel(), v2.ravel()
+        ctx.prove("post.rows stay rows", z3.And(I(e2._shape.n_rows) == n, I(v2._shape.n_rows) == n))
+        r, c = z3.Int("r"), z3.Int("c")
+        ctx.skolem(z3.And(0 <= r, r < n, 0 <= c, c < VL(r)))
+        p, q = VS(r) + c, IS(r) + c
+        vrow, irow = st["vals"]._shape.rowof, st["inds"]._shape.rowof
+        cell_pool = [r, r + 1, c, c + 1, p, p + 1, q, q + 1, q + 2, vrow(p), vrow(p) + 1, irow(q), irow(q) + 1, irow(q + 1), irow(q + 1) + 1, VL(r), n]
+        ctx.prove_then_assume("lemma: value mask, cell by cell: run c of row r is kept iff its boundaries differ", M1(p) == (B(r, c) != B(r, c + 1)), pool=cell_pool)
+        ctx.prove_then_assume("lemma: boundary mask, cell by cell: boundary 0 is kept, boundary c+1 iff run c is kept",
+                              z3.And(M2(IS(r)), M2(q + 1) == (B(r, c) != B(r, c + 1))), pool=cell_pool + [IS(r), IS(r) + 1, irow(IS(r)), irow(IS(r)) + 1])
+        ctx.assume_forall("masks cell by cell (lemmas above, (r, c) arbitrary)", lambda r_, c_: z3.Implies(z3.And(0 <= r_, r_ < n, 0 <= c_, c_ < VL(r_)), z3.And(
+            M1(VS(r_) + c_) == (B(r_, c_) != B(r_, c_ + 1)), M2(IS(r_)), M2(IS(r_) + c_ + 1) == (B(r_, c_) != B(r_, c_ + 1)))), arity=2)
+        # R: ranks of the two masks along a row
+        inv = lambda c_: rk2(IS(r) + c_ + 1) - rk2(IS(r)) == 1 + rk1(VS(r) + c_) - rk1(VS(r))
+        ctx.prove("lemmaR.base: c = 0", inv(z3.IntVal(0)), pool=[r, IS(r), IS(r) + 1, VS(r), z3.IntVal(0)], live=[c])
+        ctx.prove("lemmaR.step: along row r from c to c+1", z3.Implies(inv(c), inv(c + 1)), pool=[r, c, c + 1, p, p + 1, q, q + 1, q + 2, IS(r), VS(r)])
+        ctx.assume_forall("lemmaR (by induction on c)", lambda r_, c_: z3.Implies(z3.And(0 <= r_, r_ < n, 0 <= c_, c_ <= VL(r_)),
+                          rk2(IS(r_) + c_ + 1) - rk2(IS(r_)) == 1 + rk1(VS(r_) + c_) - rk1(VS(r_))), arity=2)
+        if not isinstance(e2._shape.lengths, SymArr):
+            return                                       # no rows at all: nothing more to state
+        ctx.prove_then_assume("post.lock-step: every row keeps one boundary more than values", z3.And(
+            e2._shape.lengths.get(r) == v2._shape.lengths.get(r) + 1, e2._shape.starts.get(r) == rk2(IS(r)), v2._shape.starts.get(r) == rk1(VS(r)),
+            v2._shape.lengths.get(r) == rk1(VS(r + 1)) - rk1(VS(r))),
+            pool=[r, r + 1, VL(r), IS(r), IS(r + 1), VS(r), VS(r + 1), n], live=[c])
+        ctx.prove("post.the first boundary of every row is kept", ED.get(e2._shape.starts.get(r)) == B(r, 0),
+                  pool=[r, r + 1, IS(r), IS(r) + 1, irow(IS(r)), irow(IS(r)) + 1, rk2(IS(r)), n, z3.IntVal(0)], live=[c])
+        # a kept run
+        ctx.assume(B(r, c) != B(r, c + 1))
+        t = rk1(p) - rk1(VS(r))
+        ctx.prove("post.a non-empty run keeps its value, as run number t = (kept runs of the row before it)",
+                  z3.And(0 <= t, t < v2._shape.lengths.get(r), VD.get(v2._shape.starts.get(r) + t) == W(r, c)),
+                  pool=[r, r + 1, c, c + 1, p, p + 1, VS(r), VS(r + 1), vrow(p), vrow(p) + 1, rk1(p), n, VS(n), nz1.cnt],
+                  without=["masks cell by cell", "lemmaR", "lemmaF", "lemmaT"])
+        ctx.prove_then_assume("lemma: boundary c+1 of row r is kept, as boundary number t+1 of the new row",
+                              z3.And(M2(q + 1), rk2(q + 1) == rk2(IS(r)) + t + 1, pos2(rk2(q + 1)) == q + 1, irow(q + 1) == r),
+                              pool=[r, r + 1, c, c + 1, q + 1, q + 2, IS(r), IS(r + 1), irow(q + 1), irow(q + 1) + 1, rk2(q + 1), p, VS(r), n, IS(n), nz2.cnt])
+        ctx.prove("post.a non-empty run keeps its end", ED.get(e2._shape.starts.get(r) + t + 1) == B(r, c + 1),
+                  pool=[r, c, c + 1, q + 1, IS(r), rk2(q + 1), irow(q + 1)])
+        # its start: the previous kept boundary has the same value (constant along a stretch of empty runs)
+        w = z3.Function(fresh_name("chg"), z3.IntSort(), z3.IntSort(), z3.IntSort(), z3.IntSort())
+        a_, b_ = z3.Int("a"), z3.Int("b")
+        P = lambda r_, x, y, wit: z3.Or(B(r_, x) == B(r_, y), z3.And(x <= wit, wit < y, B(r_, wit) != B(r_, wit + 1)))
+        ctx.prove("lemmaS.base", P(r, a_, a_, a_), pool=[a_], live=[r, c])
+        ctx.prove("lemmaS.step", z3.Implies(z3.And(a_ <= b_, P(r, a_, b_, w(r, a_, b_))), P(r, a_, b_ + 1, z3.If(B(r, a_) == B(r, b_), b_, w(r, a_, b_)))),
+                  pool=[a_, b_, b_ + 1, w(r, a_, b_), w(r, a_, b_) + 1], live=[r, c])
+        ctx.assume_forall("constant-or-change along a row (by induction)", lambda x, y: z3.Implies(z3.And(0 <= x, x <= y, y <= VL(r)), P(r, x, y, w(r, x, y))), arity=2)
+        prevq = pos2(rk2(q + 1) - 1)                 # flat position of the previous kept boundary
+        pc = prevq - IS(r)
+        ch = w(r, pc, c)
+        ctx.prove_then_assume("lemma: the previous kept boundary lies in row r, at or before boundary c",
+                              z3.And(IS(r) <= prevq, prevq <= q, M2(prevq), rk2(prevq) == rk2(q + 1) - 1, rk2(prevq + 1) == rk2(q + 1), irow(prevq) == r),
+                              pool=[r, r + 1, q, q + 1, IS(r), IS(r) + 1, IS(r + 1), rk2(q + 1) - 1, rk2(q + 1), rk2(IS(r)), prevq, prevq + 1, irow(prevq), irow(prevq) + 1, nz2.cnt,
+                                    n, IS(n), c, p, VS(r)],
+                              without=["masks cell by cell", "lemmaF", "lemmaT", "constant-or-change"])
+        ctx.prove_then_assume("lemma: no boundary strictly between the previous kept one and c+1 is kept, so the runs between are empty",
+                              z3.Not(z3.And(pc <= ch, ch < c, B(r, ch) != B(r, ch + 1))),
+                              pool=[r, ch, ch + 1, IS(r) + ch + 1, IS(r) + ch + 2, prevq, prevq + 1, q, q + 1, pc, c, VL(r)])
+        ctx.prove("post.a non-empty run keeps its start: the previous kept boundary has the value B(r, c)",
+                  z3.And(ED.get(e2._shape.starts.get(r) + t) == B(r, pc), B(r, pc) == B(r, c)),
+                  pool=[r, c, pc, prevq, IS(r), rk2(q + 1), rk2(q + 1) - 1, irow(prevq)])
+        ctx.prove("post.operands not modified", z3.BoolVal(st["inds"].writes == 0 and st["vals"].writes == 0))
+
+    def concrete(self, case):
+        from npstructures import RaggedArray
+        from npstructures.runlengtharray import RunLengthRaggedArray
+        ev, va = case["events"], case["values"]
+        e2, v2 = RunLengthRaggedArray.remove_empty_intervals(RaggedArray(ev), RaggedArray(va))
+        ee, ve = [], []
+        for er, vr in zip(ev, va):
+            keep = [i for i in range(len(vr)) if er[i] != er[i + 1]]
+            ee.append([er[0]] + [er[i + 1] for i in keep])
+            ve.append([vr[i] for i in keep])
+        if e2.tolist() != ee or v2.tolist() != ve:
+            return {"msg": f"remove_empty_intervals({ev}, {va}) = {e2.tolist()}, {v2.tolist()}, expected {ee}, {ve}", "sig": "wrong:rlragged-remove-empty"}
+
+    def concretise(self, kind, model, ghost):
+        return {"events": [[0, 0, 2, 2], [0, 3]], "values": [[1, 2, 3], [4]]}
+
+    def bounded_cases(self, tier, seed):
+        import itertools
+        for k1 in range(1, 4):
+            for d1 in itertools.product((0, 1, 2), repeat=k1):
+                for d2 in ((1,), (0, 2), (0, 0)):
+                    rows_e, rows_v = [], []
+                    for d in (d1, d2):
+                        e = [0]
+                        for x in d:
+                            e.append(e[-1] + x)
+                        rows_e.append(e)
+                        rows_v.append([10 + i for i in range(len(d))])
+                    yield {"events": rows_e, "values": rows_v}
